@@ -191,7 +191,17 @@ def _tlc_job(cfg: Cfg, seed: int, cfgdir: Path) -> dict:
         raise tlc.TLCError(f"model MC_C20/{cfg.name} violates {r.violated}\n" + r.output[-3000:])
     r.output = ""
     r.lines = []
-    return {"cfg": cfg, "res": r, "hs": hs, "fs": fs}
+    # keep only what is replayed: maximal histories (sampled by seed when capped) and their finals
+    lv = rp.leaves(hs + [f["h"] for f in fs])
+    if cfg.cap is not None and len(lv) > cfg.cap:
+        lv = random.Random(f"{seed}-{cfg.name}").sample(lv, cfg.cap)
+    keep = {json.dumps(h, sort_keys=True) for h in lv}
+    finals = {}
+    for f in fs:
+        k = json.dumps(f["h"], sort_keys=True)
+        if k in keep:
+            finals[k] = f["fin"]
+    return {"cfg": cfg, "res": r, "lv": lv, "finals": finals, "nedges": len(hs), "nfinals": len(fs)}
 
 
 def _reproduce_job(cfg: Cfg, inv: str, cfgdir: Path) -> dict:
@@ -266,16 +276,13 @@ def main(tier: str, seed: int) -> int:
         r = j["res"]
         if cfg.mode == "sim":
             rep.models.append({"model": f"MC_C20/{cfg.name}", "mode": "simulate", "behaviours": cfg.nsim,
-                               "complete_histories": len(j["fs"]), "wall_s": round(r.wall_s, 1),
+                               "complete_histories": j["nfinals"], "wall_s": round(r.wall_s, 1),
                                "constants": cfg.c})
         else:
             rep.add_model(f"MC_C20/{cfg.name}", r, constants=cfg.c,
                           mode="exhaustive" + ("+emit" if cfg.mode == "emit" else ""))
-        finals = {json.dumps(f["h"], sort_keys=True): f["fin"] for f in j["fs"]}
-        lv = rp.leaves(j["hs"] + [f["h"] for f in j["fs"]])
-        rep.extra["choice_edges_emitted"] = rep.extra.get("choice_edges_emitted", 0) + len(j["hs"])
-        if cfg.cap is not None and len(lv) > cfg.cap:
-            lv = rng.sample(lv, cfg.cap)
+        finals, lv = j["finals"], j["lv"]
+        rep.extra["choice_edges_emitted"] = rep.extra.get("choice_edges_emitted", 0) + j["nedges"]
         for h in lv:
             key = json.dumps([h, cfg.kw], sort_keys=True)
             if key in seen:
